@@ -16,8 +16,8 @@
 EXTENDS Integers, Sequences, FiniteSets, TLC, Json, IOUtils, SequencesExt
 
 \* the value universe, by name (the driver renders them to ECAL literals)
-Vals == {"null", "true", "0", "1", "-1", "0.5", "huge", "estr", "str", "numstr", "elist", "list", "emap", "map", "func", "nlist"}
-Kind(v) == CASE v \in {"0", "1", "-1", "0.5", "huge"} -> "num" [] v \in {"estr", "str", "numstr"} -> "str"
+Vals == {"null", "true", "0", "1", "-1", "0.5", "-0.5", "huge", "estr", "str", "numstr", "elist", "list", "emap", "map", "func", "nlist"}
+Kind(v) == CASE v \in {"0", "1", "-1", "0.5", "-0.5", "huge"} -> "num" [] v \in {"estr", "str", "numstr"} -> "str"
              [] v \in {"elist", "list", "nlist"} -> "list" [] v \in {"emap", "map"} -> "map"
              [] v = "true" -> "bool" [] v = "func" -> "func" [] OTHER -> "null"
 ListLen(v) == CASE v = "elist" -> 0 [] v = "list" -> 3 [] v = "nlist" -> 2 [] OTHER -> 0
@@ -60,7 +60,7 @@ DeepCases == IF IOEnv.VERIF_TIER = "thorough"
 BinOps == {"*", "/", "//", "%", "+", "-", ">=", "<=", "!=", "==", ">", "<", "like", "in", "notin", "hasprefix", "hassuffix", "and", "or"}
 OpClass(op, l, r) ==
   CASE op \in {"*", "/", "//", "+", "-"} -> IF Kind(l) = "num" /\ Kind(r) = "num" THEN "value" ELSE "error"
-    [] op = "%" -> IF Kind(l) = "num" /\ Kind(r) = "num" THEN (IF r \in {"0", "0.5"} THEN "error" ELSE "value") ELSE "error"
+    [] op = "%" -> IF Kind(l) = "num" /\ Kind(r) = "num" THEN (IF r \in {"0", "0.5", "-0.5"} THEN "error" ELSE "value") ELSE "error"
     [] op \in {"and", "or"} -> IF Kind(l) = "bool" /\ Kind(r) = "bool" THEN "value" ELSE "error"
     [] op \in {"in", "notin"} -> IF Kind(r) = "list" THEN "value" ELSE "error"
     [] OTHER -> "any"                          \* comparisons / like ... across all kinds: any, never a fault
